@@ -96,15 +96,9 @@ def parse_dist_csv(text):
     return cells
 
 
-def run(ctx):
-    ctx.mc('MC_Cli', 'MC_Cli.cfg', require_actions=['Dist', 'Query'], workers=8,
-           note='command histories of depth 2 over dist/query with 3 parameter sets: no comparison of mismatched parameters, accounting; '
-                'if-chain of dist == definition on the whole table (ASSUME)')
-    ctx.mc('MC_Cli', 'MC_Cli.cfg', expect='NoSilentMismatch', overrides=dict(GuardQuerySigs='FALSE'),
-           note='negative control: `query -s` without a parameter check (as found at the pinned commit) compares mismatched signatures')
-    tmp = tlc.mktmp('c14-')
-    try:
-        env = setup(tmp, ctx.seed)
+def run_set(ctx, tmp, seed):
+    if True:
+        env = setup(tmp, seed)
         table, _ = tlc.generate('Gen_Cli', cfg='Gen_Cli.cfg')
         table.sort(key=core.canon)
         if ctx.tier == 'quick':
@@ -132,6 +126,22 @@ def run(ctx):
                 else:
                     rec['nrows'] = len(list(csv.reader(io.StringIO(text, newline='')))) - 1
             recs.append(rec)
+        return recs
+
+
+def run(ctx):
+    ctx.mc('MC_Cli', 'MC_Cli.cfg', require_actions=['Dist', 'Query'], workers=8,
+           note='command histories of depth 2 over dist/query with 3 parameter sets: no comparison of mismatched parameters, accounting; '
+                'if-chain of dist == definition on the whole table (ASSUME)')
+    ctx.mc('MC_Cli', 'MC_Cli.cfg', expect='NoSilentMismatch', overrides=dict(GuardQuerySigs='FALSE'),
+           note='negative control: `query -s` without a parameter check (as found at the pinned commit) compares mismatched signatures')
+    tmp = tlc.mktmp('c14-')
+    try:
+        recs = []
+        for rep in range(1 if ctx.tier == 'quick' else 3):
+            sub = os.path.join(tmp, f'set{rep}')
+            os.makedirs(sub)
+            recs += run_set(ctx, sub, ctx.seed + 31 * rep)
         n, bad = tlc.judge('Judge_C14', recs)
         for i, why in bad:
             r = recs[i]
